@@ -6,6 +6,10 @@ import Tahoe.Storage.Crawler
       `k<K>/<oracle>/<listing>`   a slice killed after K completed process_bucket calls
       `r`                         process lost between slices, restarted from the state file
       `g`                         orderly stopService() between slices, then restarted
+      `w<P>/<oracle>/<listing>`   a complete slice whose final save_state is killed at point P, then restarted
+      `x<P>`                      stopService() whose save_state is killed at point P, then restarted
+                                  P = t (after the truncating open) h (half written) w (written, not renamed) r (renamed)
+    The optional token `a0` / `a1` after <np> selects the in-place / atomic (tmp+rename) state write (default a1).
     oracle = `-` or the comma-separated indices of the time checks that report "slice exceeded";
     listing = `-` or `p:b.b.b,p:b.b` (prefix index : bucket ranks in listdir order).
     Runs the process machine (`stepProc`: in-memory crawler + state file).
@@ -28,14 +32,21 @@ def parseListing (t : String) : Option (Nat → List Nat) :=
       | _ => none)
     pure (fun i => match pairs.find? (fun q => q.1 == i) with | some q => q.2 | none => [])
 
-def parseEvent (t : String) : Option PEvent :=
+def parsePoint (t : String) : Option SavePoint :=
+  if t == "t" then some .truncated else if t == "h" then some .halfWritten
+  else if t == "w" then some .written else if t == "r" then some .renamed else none
+
+def parseEvent (t : String) : Option PEventA :=
   match t.splitOn "/" with
-  | ["r"] => some .restart
-  | ["g"] => some .stop
-  | ["s", o, l] => do pure (.slice (← parseListing l) (← parseOracle o))
+  | ["r"] => some (.ev .restart)
+  | ["g"] => some (.ev .stop)
+  | ["s", o, l] => do pure (.ev (.slice (← parseListing l) (← parseOracle o)))
+  | [x] => if x.startsWith "x" then do pure (.stopKill (← parsePoint (x.drop 1).toString)) else none
   | [k, o, l] =>
     if k.startsWith "k" then do
-      pure (.killed (← parseListing l) (← parseOracle o) (← (k.drop 1).toString.toNat?))
+      pure (.ev (.killed (← parseListing l) (← parseOracle o) (← (k.drop 1).toString.toNat?)))
+    else if k.startsWith "w" then do
+      pure (.saveKill (← parseListing l) (← parseOracle o) (← parsePoint (k.drop 1).toString))
     else none
   | _ => none
 
@@ -48,18 +59,22 @@ def showLog (l : List Entry) : String :=
 
 def showP (p : Persist) : String := s!"{showOpt p.cur}/{showOpt p.lcf}/{p.next}/{showOpt p.lcb}"
 
-def runShow (np : Nat) : Proc → List PEvent → List String → List String
+def runShow (atomic : Bool) (np : Nat) : Proc → List PEventA → List String → List String
   | _, [], acc => acc.reverse
   | P, ev :: evs, acc =>
-    let r := stepProc np P ev
-    runShow np r.1 evs (s!"{showLog r.2}/{showP (loadFile r.1.file).p}/m{showP r.1.mem.p}" :: acc)
+    let r := stepProcA atomic np P ev
+    runShow atomic np r.1 evs (s!"{showLog r.2}/{showP (loadFile r.1.file).p}/m{showP r.1.mem.p}" :: acc)
 
 def handle : List String → String
   | "crawl" :: np :: evs =>
     match (do
       let n ← np.toNat?
-      let es ← evs.mapM parseEvent
-      pure (";".intercalate (runShow n procInit es []))) with
+      let (atomic, evs') := match evs with
+        | "a0" :: rest => (false, rest)
+        | "a1" :: rest => (true, rest)
+        | _ => (true, evs)
+      let es ← evs'.mapM parseEvent
+      pure (";".intercalate (runShow atomic n procInit es []))) with
     | some out => out
     | none => "bad-op"
   | _ => "bad-op"
